@@ -37,11 +37,23 @@ def run(ctx):
     fam = P.closures_of(APPLY)
     ctx.touch(f)
     STORE_RX = r'alloc::vec::Vec::push$|btree::map::BTreeMap::insert$|hash::map::HashMap::insert$|::or_insert(_with)?$|btree::map::BTreeMap::entry$|hash::map::HashMap::entry$'
-    undo_cl = [g for g in fam if g.calls(STORE_RX, full=r'Option<alloc::vec::Vec<u8>>') and g.calls(r'^std::fs::read$')]
+    def has_undo(g):
+        return bool(g.calls(STORE_RX, full=r'Option<alloc::vec::Vec<u8>>')) and bool(g.calls(r'^std::fs::read$'))
+    undo_cl = [g for g in fam if has_undo(g)]
+    undo_body = None
+    if not undo_cl:
+        # the closure only forwards to a private helper that holds the body
+        for g in fam:
+            for s_ in g.sites():
+                h = P.fns.get(s_.callee)
+                if h is not None and h.crate == f.crate and has_undo(h):
+                    undo_cl.append(g)
+                    undo_body = h
     if len(undo_cl) != 1:
         raise CheckError('C12.1: expected one record_undo closure (reads the previous bytes and stores Option<Vec<u8>> per path), found %d' % len(undo_cl))
-    undo_cl = undo_cl[0]
-    op_cl = [g for g in fam if g.calls(MUT)]
+    undo_call_cl = undo_cl[0]
+    undo_cl = undo_body or undo_call_cl
+    op_cl = [g for g in fam if g.calls(MUT) and g is not undo_call_cl]
     if len(op_cl) != 1:
         raise CheckError('C12.1: expected one operation closure with fs mutations, found %d' % len(op_cl))
     op_cl = op_cl[0]
@@ -71,7 +83,7 @@ def run(ctx):
                'EVERY time a path is recorded (%s overwrites / duplicates): the rollback of a patch that touches a path twice restores an intermediate state' % st_.name), line=st_.line)
     ctx.ob('C12.1', undo_cl, 'undo-captures-previous', bool(rd) and all(undo_cl.can_reach(r.bb, p.bb) for r in rd for p in pu) and not undo_cl.calls(MUT),
            'record_undo reads the previous bytes (or notes absence) before pushing and mutates nothing', line=undo_cl.line)
-    records = [s for s in op_cl.sites() if s.callee == undo_cl.path]
+    records = [s for s in op_cl.sites() if s.callee in (undo_call_cl.path, undo_cl.path)]
     muts = op_cl.calls(MUT)
     ctx.floor('C12.1', 'fs mutations in the operation closure', len(muts), 4)
     for mu in muts:
@@ -80,7 +92,7 @@ def run(ctx):
             pl = op_cl.root_local(mu.args[pi], through_calls=(r'::as_ref$', r'::deref$'))
             ok = False
             for r in records:
-                if pl is not None and pl in arg_roots(op_cl, r.args[1]):
+                if pl is not None and any(pl in arg_roots(op_cl, ra) for ra in r.args[1:]):
                     e = ok_edge_of_try(op_cl, r)
                     if e is not None and e[1] is not None and op_cl.edge_dom(e[0], e[1], mu.bb):
                         ok = True
